@@ -49,14 +49,12 @@ let parse_budget (sc : scase) (il : ev list) : string option =
 (* likewise for COPY data: the payloads handed to a handler are, in order and each at most once, bodies of complete
    CopyData messages within the limit that the client sent *)
 let data_budget (sc : scase) (il : ev list) : string option =
-  let sent = List.filter_map (function FMsg (t, body) when int_of_byte t = 100 -> Some body | _ -> None) (client_frames sc) in
-  let seen = List.filter_map (function CbOp (OData b) -> Some b | _ -> None) il in
-  let rec subseq a b = match a, b with
-    | [], _ -> true
-    | _, [] -> false
-    | x :: a', y :: b' -> if x = y then subseq a' b' else subseq a b' in
-  if subseq seen sent then None
-  else Some (Printf.sprintf "a COPY handler was handed %d payloads that are not, in order, bodies of the %d complete CopyData messages the client sent" (List.length seen) (List.length sent))
+  (* [oracle_data_budget] is extracted from Coq (and proven of the model); the numbers are for the report only *)
+  if oracle_data_budget sc il then None
+  else
+    let sent = List.length (List.filter (function FMsg (t, _) when int_of_byte t = 100 -> true | _ -> false) (client_frames sc)) in
+    let seen = List.length (List.filter (function CbOp (OData _) -> true | _ -> false) il) in
+    Some (Printf.sprintf "a COPY handler was handed %d payloads that are not, in order, bodies of the %d complete CopyData messages the client sent" seen sent)
 let with_budget (check : sexp list -> verdict * string option) (fields : sexp list) : verdict * string option =
   let (v, cross) = check fields in
   match v with
